@@ -1,10 +1,13 @@
 /-
 C10 — join / merge / coalesce / add_statics / period_merge obey their relational definitions.
-Only property theorems live here (helper lemmas: `Lemmas/Join.lean`).
+Only property theorems live here (helper lemmas: `Lemmas/Join.lean`, `Lemmas/JoinSpec.lean`,
+`Lemmas/JoinRegroup.lean`, `Lemmas/JoinHelpers.lean` — the last one holds the generic helpers that
+used to sit in this file, same namespace).
 -/
 import Bermuda.Lemmas.Join
 import Bermuda.Lemmas.JoinSpec
 import Bermuda.Lemmas.JoinRegroup
+import Bermuda.Lemmas.JoinHelpers
 import Bermuda.Properties.C01
 namespace Bermuda.Properties.C10
 open Bermuda List Bermuda.JoinL
@@ -84,23 +87,6 @@ theorem reduceOn_perm {on : Option (List String)} {a a' : List Cell}
     · rename_i x xs; exact absurd rfl (hh x xs)
     · exact List.Perm.refl _
 
-theorem isIncremental_of_consistent {l : List Cell} (h : kindsConsistent l = true) :
-    isIncremental l = (!l.isEmpty && l.all (·.kind == .incremental)) := by
-  cases l with
-  | nil => rfl
-  | cons c l =>
-    simp only [isIncremental, List.isEmpty_cons, Bool.not_false, Bool.true_and, List.all_cons]
-    unfold kindsConsistent at h
-    simp only [List.all_cons, Bool.or_eq_true, Bool.and_eq_true] at h
-    cases hk : c.kind <;> simp_all
-
-theorem isIncremental_perm {l l' : List Cell} (hp : l.Perm l') (h : kindsConsistent l = true) :
-    isIncremental l' = isIncremental l := by
-  rw [isIncremental_of_consistent h, isIncremental_of_consistent ((kindsConsistent_perm hp) ▸ h)]
-  congr 1
-  · cases l <;> cases l' <;> simp_all
-  · rw [Bool.eq_iff_iff]; simp only [List.all_eq_true, hp.mem_iff]
-
 theorem reduceOn_isIncremental {on : Option (List String)} {a a' : List Cell}
     (h : reduceOn on a = .ok a') : isIncremental a' = isIncremental a := by
   unfold reduceOn at h
@@ -112,14 +98,6 @@ theorem reduceOn_isIncremental {on : Option (List String)} {a a' : List Cell}
     cases a <;> rfl
   · cases h; rfl
 
-
-theorem setExpr_congr {ty : JoinType} {A B A' B' : List Coord} (hA : ∀ k, k ∈ A ↔ k ∈ A')
-    (hB : ∀ k, k ∈ B ↔ k ∈ B') (k : Coord) : Spec.setExpr ty A B k = Spec.setExpr ty A' B' k := by
-  have h1 : A.contains k = A'.contains k := by
-    rw [Bool.eq_iff_iff, List.contains_iff_mem, List.contains_iff_mem]; exact hA k
-  have h2 : B.contains k = B'.contains k := by
-    rw [Bool.eq_iff_iff, List.contains_iff_mem, List.contains_iff_mem]; exact hB k
-  cases ty <;> simp only [Spec.setExpr, h1, h2]
 
 /-- **join_keys** for `join` itself, `on` included: the coordinates of the result are those of the
 set expression on the keys of the operands *with metadata reduced to `on`*. -/
@@ -139,14 +117,13 @@ theorem join_keys_on {ty : JoinType} {on : Option (List String)} {a b : List Cel
   rw [this.2.2 k, setExpr_congr (fun k => ((reduceOn_perm ha).map _).mem_iff)
     (fun k => ((reduceOn_perm hb).map _).mem_iff)]
 
-/-! ### 3. join carries the original cells, metadata reduced to `on` -/
+/-- **pair_not_both_none**: `(None, None)` never comes out of `join` (every returned pair has a
+coordinate: conjunct `none ∉ ks` of `join_keys_on`) — what `_merge_cell_pair` relies on. -/
+theorem pair_not_both_none {ty : JoinType} {on : Option (List String)} {a b : List Cell}
+    {ps : List CellPair} (h : join (some ty) on a b = .ok ps) : (none, none) ∉ ps := fun hp =>
+  (join_keys_on h).2.1 (List.mem_map.mpr ⟨(none, none), hp, rfl⟩)
 
-theorem mem_of_mem_joinCore {ty : JoinType} {a b : List Cell} {p : CellPair}
-    (hp : p ∈ joinCore ty a b) :
-    (∀ c, p.1 = some c → c ∈ a) ∧ (∀ c, p.2 = some c → c ∈ b) := by
-  rw [joinCore_eq] at hp
-  obtain ⟨k, _, rfl⟩ := List.mem_map.mp hp
-  exact ⟨fun c hc => (dictGet_some hc).1, fun c hc => (dictGet_some hc).1⟩
+/-! ### 3. join carries the original cells, metadata reduced to `on` -/
 
 /-- **join_carries_originals**: every cell in a returned pair is a cell of the corresponding
 operand (left cell from the left operand, right cell from the right one), unchanged except that its
@@ -174,42 +151,47 @@ theorem join_on_metadata {ty : JoinType} {x : String} {xs : List String} {a b : 
   exact ⟨fun c hc => (this.1 c hc).imp fun c₀ h => ⟨h.1, h.2.symm⟩,
          fun c hc => (this.2 c hc).imp fun c₀ h => ⟨h.1, h.2.symm⟩⟩
 
+/-- **selectOn_spec** — "metadata reduced to `on`", field by field: each of the six attributes is kept
+when its name is in `on` and `None` otherwise (also `risk_basis`, whose constructor default is
+"Accident"); `details` / `loss_details` keep exactly the entries whose key is in `on`, with their
+values. -/
+theorem selectOn_spec (m : Metadata) (on : List String) :
+    ((m.selectOn on).riskBasis = if "risk_basis" ∈ on then m.riskBasis else none) ∧
+    ((m.selectOn on).country = if "country" ∈ on then m.country else none) ∧
+    ((m.selectOn on).currency = if "currency" ∈ on then m.currency else none) ∧
+    ((m.selectOn on).reinsuranceBasis = if "reinsurance_basis" ∈ on then m.reinsuranceBasis else none) ∧
+    ((m.selectOn on).lossDefinition = if "loss_definition" ∈ on then m.lossDefinition else none) ∧
+    ((m.selectOn on).limit = if "per_occurrence_limit" ∈ on then m.limit else none) ∧
+    (∀ k, (m.selectOn on).details.get? k = if k ∈ on then m.details.get? k else none) ∧
+    (∀ k, (m.selectOn on).lossDetails.get? k = if k ∈ on then m.lossDetails.get? k else none) ∧
+    (∀ k, k ∈ (m.selectOn on).details.keys ↔ k ∈ on ∧ k ∈ m.details.keys) ∧
+    (∀ k, k ∈ (m.selectOn on).lossDetails.keys ↔ k ∈ on ∧ k ∈ m.lossDetails.keys) := by
+  have hd : ∀ (d : Dict MVal) k, Dict.get? (d.filter (fun kv => on.contains kv.1)) k =
+      if k ∈ on then d.get? k else none := by
+    intro d k
+    rw [Dict.get?_filter_j d (fun k => on.contains k) k]
+    simp only [List.contains_iff_mem]
+  have hk : ∀ (d : Dict MVal) k, k ∈ Dict.keys (d.filter (fun kv => on.contains kv.1)) ↔
+      k ∈ on ∧ k ∈ d.keys := by
+    intro d k
+    simp only [Dict.keys, List.mem_map, List.mem_filter, List.contains_iff_mem]
+    constructor
+    · rintro ⟨kv, ⟨hm, hp⟩, rfl⟩; exact ⟨hp, kv, hm, rfl⟩
+    · rintro ⟨hp, kv, hm, rfl⟩; exact ⟨kv, ⟨hm, hp⟩, rfl⟩
+  simp only [Metadata.selectOn, List.contains_iff_mem]
+  exact ⟨trivial, trivial, trivial, trivial, trivial, trivial, hd _, hd _, hk _, hk _⟩
+
+/-- … and nothing else of the cell changes: class, period, evaluation dates, values -/
+theorem selectOn_cell (c : Cell) (on : List String) :
+    (c.selectOn on).kind = c.kind ∧ (c.selectOn on).ps = c.ps ∧ (c.selectOn on).pe = c.pe ∧
+    (c.selectOn on).ev = c.ev ∧ (c.selectOn on).prev = c.prev ∧ (c.selectOn on).values = c.values ∧
+    (c.selectOn on).md = c.md.selectOn on := ⟨rfl, rfl, rfl, rfl, rfl, rfl, rfl⟩
+
 /-- without `on` (or with the falsy `[]`) the cells are the operands' own cells -/
 theorem join_no_on {ty : JoinType} {a b : List Cell} {ps : List CellPair}
     (h : join (some ty) none a b = .ok ps) : ps = joinCore ty a b := by
   obtain ⟨_, a', b', ha, hb, rfl⟩ := join_ok h
   cases ha; cases hb; rfl
-
-theorem cellAt_eq_some_iff {inc : Bool} {t : List Cell} (hn : (t.map (joinKey inc)).Nodup)
-    {k : Coord} {c : Cell} : Spec.cellAt inc t k = some c ↔ c ∈ t ∧ joinKey inc c = k := by
-  rw [← dictGet_eq_cellAt hn]
-  constructor
-  · exact dictGet_some
-  · rintro ⟨hc, rfl⟩
-    induction t with
-    | nil => cases hc
-    | cons d t ih =>
-      rw [List.map_cons, List.nodup_cons] at hn
-      simp only [dictGet]
-      rcases List.mem_cons.mp hc with rfl | hc
-      · rw [dictGet_none_of_not_mem hn.1]; simp
-      · rw [ih hn.2 hc]
-
-theorem cellAt_perm {inc : Bool} {t t' : List Cell} (hn : (t.map (joinKey inc)).Nodup)
-    (hp : t.Perm t') (k : Coord) : Spec.cellAt inc t k = Spec.cellAt inc t' k := by
-  have hn' : (t'.map (joinKey inc)).Nodup := (hp.map _).nodup_iff.mp hn
-  cases h : Spec.cellAt inc t' k with
-  | some c =>
-    rw [cellAt_eq_some_iff hn]
-    have := (cellAt_eq_some_iff hn').mp h
-    exact ⟨hp.mem_iff.mpr this.1, this.2⟩
-  | none =>
-    cases h2 : Spec.cellAt inc t k with
-    | none => rfl
-    | some c =>
-      have := (cellAt_eq_some_iff hn).mp h2
-      rw [(cellAt_eq_some_iff hn').mpr ⟨hp.mem_iff.mp this.1, this.2⟩] at h
-      cases h
 
 /-- **join pairs are exactly (left cell at k, right cell at k)** under the distinct-keys
 hypothesis: the pair returned for coordinate `k` holds *the* cell of each (reduced) operand at `k`,
@@ -234,6 +216,68 @@ theorem join_pairs_exact {ty : JoinType} {on : Option (List String)} {a b : List
   · rw [← hi]; exact pairKey_pairOf (List.mem_filter.mp hk).1
   · rw [hi]; unfold pairOf
     rw [dictGet_eq_cellAt hna', dictGet_eq_cellAt hnb', cellAt_perm hna' hpa, cellAt_perm hnb' hpb]
+
+/-- **join_pairs_last** — WHICH cell a pair carries, with NO distinct-keys hypothesis: the pair
+returned for coordinate `k` is (the LAST cell with key `k` of the left operand, the last cell with key
+`k` of the right operand), `None` where the operand has none, the operands taken as join.py indexes
+them (`Spec.sortedOn`): with a non-empty `on` the metadata-reduced cells re-sorted by `Triangle(...)`,
+otherwise the operand's own cell order. So when slices that differ only outside `on` collapse to one
+key, the surviving cell is the one that sorts last among them (ties: the later one in the operand —
+the sort is stable). Under distinct keys this is `join_pairs_exact`. -/
+theorem join_pairs_last {ty : JoinType} {on : Option (List String)} {a b : List Cell}
+    {ps : List CellPair} (h : join (some ty) on a b = .ok ps) :
+    ∀ p ∈ ps, ∃ k, Spec.pairKey? (isIncremental a) p = some k ∧
+      p = (Spec.cellAtLast (isIncremental a) (Spec.sortedOn on a) k,
+           Spec.cellAtLast (isIncremental a) (Spec.sortedOn on b) k) := by
+  obtain ⟨_, a', b', ha, hb, rfl⟩ := join_ok h
+  have hi := reduceOn_isIncremental ha
+  have ea := reduceOn_eq_sortedOn ha
+  have eb := reduceOn_eq_sortedOn hb
+  intro p hp
+  rw [joinCore_eq] at hp
+  obtain ⟨k, hk, rfl⟩ := List.mem_map.mp hp
+  refine ⟨k, ?_, ?_⟩
+  · rw [← hi]; exact pairKey_pairOf (List.mem_filter.mp hk).1
+  · rw [hi, ← ea, ← eb]; unfold pairOf
+    rw [dictGet_eq_cellAtLast, dictGet_eq_cellAtLast]
+
+/-- **join_pairs_last_max**: the cell a pair carries for an operand is a GREATEST cell, in the
+triangle order `Cell.__lt__`, among the operand's (reduced) cells with that coordinate -/
+theorem join_pairs_last_max {ty : JoinType} {on : Option (List String)} {a b : List Cell}
+    {ps : List CellPair} (h : join (some ty) on a b = .ok ps)
+    (hsa : a.Pairwise (fun x y => Cell.le x y)) (hsb : b.Pairwise (fun x y => Cell.le x y)) :
+    ∀ p ∈ ps,
+      (∀ x, p.1 = some x → ∀ y ∈ Spec.onCells on a,
+        joinKey (isIncremental a) y = joinKey (isIncremental a) x → Cell.le y x = true) ∧
+      (∀ x, p.2 = some x → ∀ y ∈ Spec.onCells on b,
+        joinKey (isIncremental a) y = joinKey (isIncremental a) x → Cell.le y x = true) := by
+  intro p hp
+  obtain ⟨k, _, rfl⟩ := join_pairs_last h p hp
+  refine ⟨fun x hx y hy hk => ?_, fun x hx y hy hk => ?_⟩
+  · have hx' : Spec.cellAtLast (isIncremental a) (Spec.sortedOn on a) k = some x := hx
+    exact cellAtLast_max (sortedOn_sorted hsa) hx' y ((sortedOn_perm on a).mem_iff.mpr hy)
+      (hk.trans (cellAtLast_some hx').2)
+  · have hx' : Spec.cellAtLast (isIncremental a) (Spec.sortedOn on b) k = some x := hx
+    exact cellAtLast_max (sortedOn_sorted hsb) hx' y ((sortedOn_perm on b).mem_iff.mpr hy)
+      (hk.trans (cellAtLast_some hx').2)
+
+/-- **join_pairs_last_own_order** — the same without the sort: when the cells of each operand that
+share a coordinate also share `prev_evaluation_date` (always so for cumulative / plain triangles —
+`prev_eq_of_not_incremental` — and whenever the left triangle is incremental, `prev` then being part
+of the key), the cells of one coordinate tie under `Cell.__lt__`, the stable sort of `Triangle(...)`
+keeps their relative order, and the pair carries the LAST cell with that coordinate in the operand's
+OWN cell order (metadata reduced to `on`): of several slices that collapse under `on`, the one that
+comes last in the triangle survives, the others are dropped without notice. -/
+theorem join_pairs_last_own_order {ty : JoinType} {on : Option (List String)} {a b : List Cell}
+    {ps : List CellPair} (h : join (some ty) on a b = .ok ps)
+    (hpa : ∀ x ∈ a, ∀ y ∈ a, x.prev = y.prev ∨ isIncremental a = true)
+    (hpb : ∀ x ∈ b, ∀ y ∈ b, x.prev = y.prev ∨ isIncremental a = true) :
+    ∀ p ∈ ps, ∃ k, Spec.pairKey? (isIncremental a) p = some k ∧
+      p = (Spec.cellAtLast (isIncremental a) (Spec.onCells on a) k,
+           Spec.cellAtLast (isIncremental a) (Spec.onCells on b) k) := by
+  intro p hp
+  obtain ⟨k, hk, hpe⟩ := join_pairs_last h p hp
+  exact ⟨k, hk, by rw [hpe, cellAtLast_sortedOn_of_ties hpa, cellAtLast_sortedOn_of_ties hpb]⟩
 
 /-! ### 4. merge -/
 
@@ -281,11 +325,6 @@ theorem merge_unmatched_id {ty : JoinType} {on : Option (List String)} {a b out 
   ⟨fun x hx => (merge_cells h hj x).mpr ⟨_, hx, rfl⟩,
    fun y hy => (merge_cells h hj y).mpr ⟨_, hy, rfl⟩⟩
 
-theorem mergeCellPair_isSome {inc : Bool} {p : CellPair} (h : Spec.pairKey? inc p ≠ none) :
-    (mergeCellPair p).isSome = true := by
-  obtain ⟨p1, p2⟩ := p
-  cases p1 <;> cases p2 <;> simp_all [mergeCellPair, Spec.pairKey?]
-
 /-- one merged cell per joined pair: `(None, None)` never occurs, nothing is dropped -/
 theorem merge_length {ty : JoinType} {on : Option (List String)} {a b out : List Cell}
     {ps : List CellPair} (h : merge (some ty) on a b = .ok out)
@@ -324,8 +363,6 @@ theorem coalesce_first_wins {ts : List (List Cell)} {out : List Cell} (h : coale
     · cases h
     · exact (hp.map _).mem_iff.mpr h
 
-theorem coalKey_eq_joinKey (c : Cell) : coalKey c = joinKey false c := rfl
-
 /-- every cell of the first triangle survives (when its coordinates are distinct) -/
 theorem coalesce_head_kept {t : List Cell} {ts : List (List Cell)} {out : List Cell}
     (h : coalesce (t :: ts) = .ok out) (hn : (t.map coalKey).Nodup) : ∀ c ∈ t, c ∈ out := by
@@ -359,23 +396,6 @@ theorem coalesce_later {t u : List Cell} {out : List Cell}
     exact hct hm
 
 /-! ### 6. add_statics and period_merge: coordinates and count never change -/
-
-/-- a cell-wise map that only rewrites `values` keeps the canonical form: same order, same class,
-same dates -/
-theorem frame_map_canonical {f : Cell → Cell} (hf : ∀ c, f c = { c with values := (f c).values })
-    {t : List Cell} (ht : Canonical t) : Canonical (t.map f) := by
-  have hle : ∀ a b, Cell.le (f a) (f b) = Cell.le a b := by
-    intro a b; rw [hf a, hf b]; rfl
-  have hk : ∀ c, (f c).kind = c.kind := fun c => by rw [hf c]
-  have hd : ∀ c, (f c).datesOk = c.datesOk := fun c => by rw [hf c]; rfl
-  refine ⟨?_, ?_, ?_⟩
-  · rw [List.pairwise_map]; exact ht.1.imp (fun {a b} h => by rw [hle]; exact h)
-  · have := ht.2.1
-    unfold kindsConsistent at this ⊢
-    simpa only [List.all_map, Function.comp_def, hk] using this
-  · intro c hc
-    obtain ⟨c₀, hc₀, rfl⟩ := List.mem_map.mp hc
-    rw [hd]; exact ht.2.2 c₀ hc₀
 
 theorem addStaticsCell_frame (src : List Cell) (st : List String) (c : Cell) :
     addStaticsCell src st c = { c with values := (addStaticsCell src st c).values } := by
@@ -452,25 +472,10 @@ theorem addStatics_spec {t src out : List Cell} {st : List String} (ht : Canonic
 
 /-! period_merge -/
 
-/-- the total cell map behind `periodMergeCell` -/
-def pmCell (b : List Cell) (suffix : Option String) (c : Cell) : Cell :=
-  match b.filter (samePeriodKey c) with
-  | [r] => overwriteValues c r suffix
-  | _ => c
-
 theorem pmCell_frame (b : List Cell) (suffix : Option String) (c : Cell) :
     pmCell b suffix c = { c with values := (pmCell b suffix c).values } := by
   unfold pmCell
   split <;> rfl
-
-theorem periodMergeCell_ok {b : List Cell} {suffix : Option String} {c c' : Cell}
-    (h : periodMergeCell b suffix c = .ok c') : c' = pmCell b suffix c := by
-  unfold periodMergeCell at h
-  unfold pmCell
-  split at h
-  · rename_i hf; cases h; rw [hf]
-  · rename_i r hf; cases h; rw [hf]
-  · cases h
 
 /-- **periodMerge_spec**: on a triangle `period_merge` either raises `ValueError` or returns the
 cell-wise image in the same order (same count, frames unchanged); a left cell whose
@@ -515,30 +520,6 @@ theorem periodMerge_kind_mismatch {a b : List Cell} {suffix : Option String}
   simp [h, bind, Except.bind, throw, throwThe, MonadExceptOf.throw]
 
 /-! ### 7. identity law -/
-
-theorem kindMismatch_self (t : List Cell) : kindMismatch t t = false := by
-  cases t <;> simp [kindMismatch]
-
-theorem allCoordinates_self {t : List Cell} (hn : (t.map (joinKey (isIncremental t))).Nodup) :
-    allCoordinates t t = t.map (joinKey (isIncremental t)) := by
-  unfold allCoordinates
-  simp only []
-  rw [dedup_append_of_subset (fun _ h => h), dedup_of_nodup hn]
-
-theorem setExpr_self {ty : JoinType} (hty : ty = .full ∨ ty = .inner ∨ ty = .left ∨ ty = .right)
-    {K : List Coord} {k : Coord} (hk : k ∈ K) : Spec.setExpr ty K K k = true := by
-  rcases hty with rfl | rfl | rfl | rfl <;> simp [Spec.setExpr, hk]
-
-theorem joinCore_self {ty : JoinType} (hty : ty = .full ∨ ty = .inner ∨ ty = .left ∨ ty = .right)
-    {t : List Cell} (hn : (t.map (joinKey (isIncremental t))).Nodup) :
-    joinCore ty t t = t.map (fun c => (some c, some c)) := by
-  rw [joinCore_eq, allCoordinates_self hn, List.filter_eq_self.mpr (fun k hk => setExpr_self hty hk),
-    List.map_map]
-  apply List.map_congr_left
-  intro c hc
-  have : dictGet (isIncremental t) t (joinKey (isIncremental t) c) = some c := by
-    rw [dictGet_eq_cellAt hn]; exact (cellAt_eq_some_iff hn).mpr ⟨hc, rfl⟩
-  simp only [Function.comp, pairOf, this]
 
 /-- **merge_self**: merging a triangle with itself gives the triangle back (for the four join types
 that keep matched coordinates), under distinct keys — the value dicts included, order and all. -/
@@ -586,6 +567,38 @@ theorem joinSpec_of_join {ty : JoinType} {on : Option (List String)} {a b : List
     · exact Or.inr (List.contains_iff_mem.mpr ((hset k).mpr hs))
     · exact Or.inl (by simpa using hs)
 
+/-- **`Spec.joinSpecLast` holds of the model's `join`** for every join type, every `on` and
+arbitrary operands — no hypothesis. The driver evaluates it on every join case, in particular on
+those where `Spec.joinHyp` fails (collapsed slices, duplicate coordinates). -/
+theorem joinSpecLast_of_join {ty : JoinType} {on : Option (List String)} {a b : List Cell}
+    {ps : List CellPair} (h : join (some ty) on a b = .ok ps) :
+    Spec.joinSpecLast ty on a b ps = true := by
+  obtain ⟨hnd, hnone, hset⟩ := join_keys_on h
+  have hex := join_pairs_last h
+  unfold Spec.joinSpecLast
+  simp only [Bool.and_eq_true, List.all_eq_true]
+  refine ⟨⟨nodupB_iff.mpr hnd, fun p hp => ?_⟩, fun k _ => ?_⟩
+  · obtain ⟨k, hk, hpe⟩ := hex p hp
+    rw [hk]
+    simp only [Bool.and_eq_true, beq_iff_eq]
+    refine ⟨⟨(hset k).mp (List.mem_map.mpr ⟨p, hp, hk⟩), ?_⟩, ?_⟩
+    · rw [hpe]
+    · rw [hpe]
+  · simp only [Bool.or_eq_true, Bool.not_eq_true']
+    by_cases hs : Spec.setExpr ty ((Spec.onCells on a).map (joinKey (isIncremental a)))
+        ((Spec.onCells on b).map (joinKey (isIncremental a))) k = true
+    · exact Or.inr (List.contains_iff_mem.mpr ((hset k).mpr hs))
+    · exact Or.inl (by simpa using hs)
+
+/-- under the distinct-keys hypothesis the two Spec predicates are the same Bool -/
+theorem joinSpecLast_eq_joinSpec {ty : JoinType} {on : Option (List String)} {a b : List Cell}
+    (hyp : Spec.joinHyp on a b = true) (ps : List CellPair) :
+    Spec.joinSpecLast ty on a b ps = Spec.joinSpec ty on a b ps := by
+  unfold Spec.joinHyp at hyp
+  simp only [Bool.and_eq_true, nodupB_iff] at hyp
+  unfold Spec.joinSpecLast Spec.joinSpec
+  simp only [cellAtLast_sortedOn_eq_cellAt hyp.1, cellAtLast_sortedOn_eq_cellAt hyp.2]
+
 /-- **`Spec.coalesceSpec` holds of the model's `coalesce`** (no hypothesis needed) -/
 theorem coalesceSpec_of_coalesce {ts : List (List Cell)} {out : List Cell}
     (h : coalesce ts = .ok out) : Spec.coalesceSpec ts out = true := by
@@ -594,19 +607,6 @@ theorem coalesceSpec_of_coalesce {ts : List (List Cell)} {out : List Cell}
   simp only [Bool.and_eq_true, List.all_eq_true, beq_iff_eq]
   exact ⟨⟨nodupB_iff.mpr h2, fun c hc => (h1 c).mp hc⟩,
     fun d hd => List.contains_iff_mem.mpr (h3 d hd)⟩
-
-theorem filterMap_merge_keys {inc : Bool} {ps : List CellPair}
-    (h : ∀ p ∈ ps, Spec.pairKey? inc p ≠ none) :
-    (ps.filterMap mergeCellPair).map (fun c => some (joinKey inc c)) = ps.map (Spec.pairKey? inc) := by
-  induction ps with
-  | nil => rfl
-  | cons p ps ih =>
-    have hp := mergeCellPair_isSome (h p (by simp))
-    rw [List.filterMap_cons]
-    cases hm : mergeCellPair p with
-    | none => rw [hm] at hp; cases hp
-    | some c =>
-      simp only [List.map_cons, mergeCellPair_key hm, ih (fun q hq => h q (by simp [hq]))]
 
 /-- **`Spec.mergeSpec` holds of the model's `merge`** for every join type and `on`, under the
 distinct-keys hypothesis and for value dicts with distinct keys (true of every Python dict). -/
@@ -670,14 +670,72 @@ theorem mergeSpec_of_merge {ty : JoinType} {on : Option (List String)} {a b out 
     · exact Or.inr (List.contains_iff_mem.mpr ((hmemk k).mpr ((hset k).mpr hs)))
     · exact Or.inl (by simpa using hs)
 
-theorem zip_map_self {α β} (l : List α) (f : α → β) : l.zip (l.map f) = l.map (fun a => (a, f a)) := by
-  induction l with
-  | nil => rfl
-  | cons a l ih => simp [ih]
+/-- **`Spec.mergeSpecLast` holds of the model's `merge`** for every join type and `on`, for value
+dicts with distinct keys — no distinct-coordinates hypothesis. -/
+theorem mergeSpecLast_of_merge {ty : JoinType} {on : Option (List String)} {a b out : List Cell}
+    (hv : ∀ c ∈ a ++ b, c.values.WF)
+    (h : merge (some ty) on a b = .ok out) : Spec.mergeSpecLast ty on a b out = true := by
+  obtain ⟨ps, hj, hperm, _⟩ := merge_ok h
+  obtain ⟨hnd, hnone, hset⟩ := join_keys_on hj
+  have hex := join_pairs_last hj
+  have hkeys := filterMap_merge_keys (inc := isIncremental a) (ps := ps)
+    (fun p hp hn => hnone (List.mem_map.mpr ⟨p, hp, hn⟩))
+  have hpk : ((out.map (joinKey (isIncremental a))).map some).Perm (ps.map (Spec.pairKey? (isIncremental a))) := by
+    rw [← hkeys, List.map_map]
+    exact (hperm.map _)
+  have hmemk : ∀ k, k ∈ out.map (joinKey (isIncremental a)) ↔
+      some k ∈ ps.map (Spec.pairKey? (isIncremental a)) := by
+    intro k
+    rw [← hpk.mem_iff]
+    simp
+  unfold Spec.mergeSpecLast
+  simp only [Bool.and_eq_true, List.all_eq_true]
+  refine ⟨⟨nodupB_iff.mpr ?_, fun c hc => ?_⟩, fun k _ => ?_⟩
+  · have : ((out.map (joinKey (isIncremental a))).map some).Nodup := hpk.nodup_iff.mpr hnd
+    exact List.Pairwise.of_map some (fun x y hxy e => hxy (by rw [e])) this
+  · obtain ⟨p, hp, hm⟩ := (merge_cells h hj c).mp hc
+    obtain ⟨k, hk, hpe⟩ := hex p hp
+    have hkc : k = joinKey (isIncremental a) c := by
+      have := mergeCellPair_key (inc := isIncremental a) hm
+      rw [hk] at this; exact Option.some.inj this
+    subst hkc
+    refine ⟨(hset _).mp (List.mem_map.mpr ⟨p, hp, hk⟩), ?_⟩
+    rw [hpe] at hm
+    generalize hx : Spec.cellAtLast (isIncremental a) (Spec.sortedOn on a) (joinKey (isIncremental a) c) = ox at hm
+    generalize hy : Spec.cellAtLast (isIncremental a) (Spec.sortedOn on b) (joinKey (isIncremental a) c) = oy at hm
+    cases ox with
+    | none =>
+      cases oy with
+      | none => simp [mergeCellPair] at hm
+      | some y => simp [mergeCellPair] at hm; subst hm; simp
+    | some x =>
+      cases oy with
+      | none => simp [mergeCellPair] at hm; subst hm; simp
+      | some y =>
+        simp only [mergeCellPair, Option.some.injEq] at hm
+        subst hm
+        have hxm := (cellAtLast_some hx).1
+        have hym := (cellAtLast_some hy).1
+        obtain ⟨x0, hx0, hxv⟩ := mem_sortedOn_values hxm
+        obtain ⟨y0, hy0, hyv⟩ := mem_sortedOn_values hym
+        have wx : x.values.WF := hxv ▸ hv x0 (List.mem_append.mpr (Or.inl hx0))
+        have wy : y.values.WF := hyv ▸ hv y0 (List.mem_append.mpr (Or.inr hy0))
+        simp only [Bool.and_eq_true]
+        exact ⟨sameFrame_values x _, isRightUnion_union wx wy⟩
+  · simp only [Bool.or_eq_true, Bool.not_eq_true']
+    by_cases hs : Spec.setExpr ty ((Spec.onCells on a).map (joinKey (isIncremental a)))
+        ((Spec.onCells on b).map (joinKey (isIncremental a))) k = true
+    · exact Or.inr (List.contains_iff_mem.mpr ((hmemk k).mpr ((hset k).mpr hs)))
+    · exact Or.inl (by simpa using hs)
 
-theorem sameFrame_of_frame {c o : Cell} (h : o = { c with values := o.values }) :
-    Spec.sameFrame c o = true := by
-  rw [h]; simp [Spec.sameFrame]
+/-- under the distinct-keys hypothesis the two merge predicates are the same Bool -/
+theorem mergeSpecLast_eq_mergeSpec {ty : JoinType} {on : Option (List String)} {a b : List Cell}
+    (hyp : Spec.joinHyp on a b = true) (out : List Cell) :
+    Spec.mergeSpecLast ty on a b out = Spec.mergeSpec ty on a b out := by
+  unfold Spec.joinHyp at hyp
+  simp only [Bool.and_eq_true, nodupB_iff] at hyp
+  unfold Spec.mergeSpecLast Spec.mergeSpec
+  simp only [cellAtLast_sortedOn_eq_cellAt hyp.1, cellAtLast_sortedOn_eq_cellAt hyp.2]
 
 /-- **`Spec.addStaticsSpec` holds of the model's `add_statics`** on a triangle, when the source has
 one cell per (metadata, period, evaluation date) and value dicts have distinct keys. -/
@@ -705,44 +763,6 @@ theorem addStaticsSpec_of_addStatics {t src out : List Cell} {st : List String} 
     rw [this]
     exact isRightUnion_union (hv c (List.mem_append.mpr (Or.inl hc)))
       (Dict.WF_filter (hv s (List.mem_append.mpr (Or.inr hsm))) _)
-
-theorem map_append_empty (d : Dict Val) : d.map (fun kv => (kv.1 ++ "", kv.2)) = d := by
-  conv => rhs; rw [← List.map_id d]
-  apply List.map_congr_left
-  intro kv _; simp
-
-theorem applySuffix_none (d : Dict Val) :
-    applySuffix none d = d.map (fun kv => (kv.1 ++ "", kv.2)) := (map_append_empty d).symm
-
-theorem applySuffix_some (s : String) (d : Dict Val) :
-    applySuffix (some s) d = d.map (fun kv => (kv.1 ++ s, kv.2)) := by
-  unfold applySuffix
-  simp only []
-  split
-  · rename_i he
-    have : s = "" := by simpa using he
-    subst this; exact (map_append_empty d).symm
-  · rfl
-
-theorem append_right_cancel {a b s : String} (h : a ++ s = b ++ s) : a = b := by
-  have := congrArg String.toList h
-  simp only [String.toList_append] at this
-  exact String.toList_inj.mp (List.append_cancel_right this)
-
-theorem WF_map_suffix {d : Dict Val} (h : d.WF) (s : String) :
-    Dict.WF (d.map (fun kv => (kv.1 ++ s, kv.2))) := by
-  unfold Dict.WF Dict.keys at *
-  rw [List.map_map]
-  have : ((fun x : String × Val => x.1) ∘ fun kv : String × Val => (kv.1 ++ s, kv.2)) =
-      (fun k => k ++ s) ∘ (fun x : String × Val => x.1) := rfl
-  rw [this, ← List.map_map]
-  exact List.Pairwise.map _ (fun x y hxy e => hxy (append_right_cancel e)) h
-
-theorem WF_applySuffix {d : Dict Val} (h : d.WF) (suffix : Option String) :
-    (applySuffix suffix d).WF := by
-  cases suffix with
-  | none => rw [applySuffix_none]; exact WF_map_suffix h ""
-  | some s => rw [applySuffix_some]; exact WF_map_suffix h s
 
 /-- **`Spec.periodMergeSpec` holds of the model's `period_merge`** on a triangle, when value dicts
 have distinct keys (suffixing keeps them distinct: `WF_applySuffix`). -/
@@ -780,47 +800,6 @@ theorem periodMergeSpec_of_periodMerge {a b out : List Cell} {suffix : Option St
   | _ :: _ :: _, hl => simp at hl
 
 /-! ### 8b. select → merge recombination -/
-
-theorem mapM_mk_all_ok {f : Cell → Cell} {t : List Cell} (h : ∀ c ∈ t, (f c).datesOk = true) :
-    t.mapM (fun c => (f c).mk?) = .ok (t.map f) := by
-  induction t with
-  | nil => rfl
-  | cons a t ih =>
-    rw [List.mapM_cons, ih (fun c hc => h c (by simp [hc]))]
-    simp [Cell.mk?, h a (by simp), bind, Except.bind, pure, Except.pure]
-
-theorem select_frame (ks : List String) (c : Cell) :
-    c.select ks = { c with values := (c.select ks).values } := rfl
-
-/-- on a triangle `select` is the cell-wise restriction of the value dicts, order unchanged -/
-theorem select_eq_map {t : List Cell} (ks : List String) (ht : Canonical t) :
-    Triangle.select t ks = .ok (t.map (·.select ks)) := by
-  unfold Triangle.select
-  have : t.mapM (fun c => (c.select ks).mk?) = .ok (t.map (·.select ks)) :=
-    mapM_mk_all_ok (f := (·.select ks)) (fun c hc => ht.2.2 c hc)
-  simp only [bind, Except.bind, this]
-  exact ofCells_idem (frame_map_canonical (select_frame ks) ht)
-
-theorem joinKey_frame {f : Cell → Cell} (hf : ∀ c, f c = { c with values := (f c).values })
-    (inc : Bool) (c : Cell) : joinKey inc (f c) = joinKey inc c := by
-  rw [hf c]; rfl
-
-theorem isIncremental_map_frame {f : Cell → Cell} (hf : ∀ c, f c = { c with values := (f c).values })
-    (t : List Cell) : isIncremental (t.map f) = isIncremental t := by
-  cases t with
-  | nil => rfl
-  | cons c t => simp only [List.map_cons, isIncremental]; rw [hf c]
-
-theorem keys_map_frame {f : Cell → Cell} (hf : ∀ c, f c = { c with values := (f c).values })
-    (inc : Bool) (t : List Cell) : (t.map f).map (joinKey inc) = t.map (joinKey inc) := by
-  rw [List.map_map]; apply List.map_congr_left; intro c _; exact joinKey_frame hf inc c
-
-theorem dictGet_map_frame {f : Cell → Cell} (hf : ∀ c, f c = { c with values := (f c).values })
-    {inc : Bool} {t : List Cell} (hn : (t.map (joinKey inc)).Nodup) {c : Cell} (hc : c ∈ t) :
-    dictGet inc (t.map f) (joinKey inc c) = some (f c) := by
-  have hn' : ((t.map f).map (joinKey inc)).Nodup := by rw [keys_map_frame hf]; exact hn
-  rw [dictGet_eq_cellAt hn']
-  exact (cellAt_eq_some_iff hn').mpr ⟨List.mem_map.mpr ⟨c, hc, rfl⟩, joinKey_frame hf inc c⟩
 
 /-- merging two value-only images of one triangle (`t.map f`, `t.map g`, where `f`, `g` rewrite
 nothing but `values`) gives, cell by cell and in the same order, the left frame with
@@ -991,54 +970,117 @@ example : exA.map (pmCell [exB[0]!] (some "_r")) =
       exCell exUS ⟨2022, 12, 31⟩ [("paid_loss", .int 2), ("earned_premium", .int 10),
         ("paid_loss_r", .int 7), ("reported_loss_r", .int 9)] ] := by decide +kernel
 
+/-! #### collapsed slices: `on = ["currency"]` erases country and details, `exA[0]` (DE) and `exA[1]`
+(US) get one key — `joinHyp` is false, `join_pairs_last` / `joinSpecLast` still say which cell is carried -/
+
+theorem exA_reduce_currency :
+    reduceOn (some ["currency"]) exA = .ok (exA.map (·.selectOn ["currency"])) := by
+  simp only [reduceOn, selectMetadata, Triangle.ofCells]
+  rw [if_pos (by decide +kernel)]
+  exact congrArg _ (List.mergeSort_of_pairwise (by decide +kernel))
+
+theorem exB_reduce_currency :
+    reduceOn (some ["currency"]) exB = .ok (exB.map (·.selectOn ["currency"])) := by
+  simp only [reduceOn, selectMetadata, Triangle.ofCells]
+  rw [if_pos (by decide +kernel)]
+  exact congrArg _ (List.mergeSort_of_pairwise (by decide +kernel))
+
+theorem ex_join_on_currency :
+    join (some .inner) (some ["currency"]) exA exB =
+      .ok [(some (exA[1]!.selectOn ["currency"]), some (exB[0]!.selectOn ["currency"]))] := by
+  unfold join
+  rw [exA_reduce_currency, exB_reduce_currency]
+  simp only [bind, Except.bind, pure, Except.pure]
+  rw [if_neg (by decide +kernel)]
+  exact congrArg _ (by decide +kernel)
+
+/-- the hypothesis of `join_pairs_last_own_order` holds of `exA` (cumulative cells: no `prev`) -/
+example : ∀ x ∈ exA, ∀ y ∈ exA, x.prev = y.prev ∨ isIncremental exA = true :=
+  fun x hx y hy => Or.inl (prev_eq_of_not_incremental exA_canonical.2.2 (by decide +kernel) x hx y hy)
+
+/-- … the carried left cell is `exA[1]` (US, sorts last among the collapsed cells), not `exA[0]` -/
+example : Spec.joinSpecLast .inner (some ["currency"]) exA exB
+    [(some (exA[1]!.selectOn ["currency"]), some (exB[0]!.selectOn ["currency"]))] = true :=
+  joinSpecLast_of_join ex_join_on_currency
+
+/-! #### incremental operands; `coalesce` ignores `prev_evaluation_date` (code quirk, modelled as is) -/
+
+/-- incremental cell of the period 2020 evaluated end of 2021, increment since `prev` -/
+def exInc (prev : Date) (v : Int) : Cell :=
+  { kind := .incremental, ps := ⟨2020, 1, 1⟩, pe := ⟨2020, 12, 31⟩, ev := ⟨2021, 12, 31⟩,
+    prev := some prev, values := [("paid_loss", .int v)], md := exUS }
+
+def exI1 : Cell := exInc ⟨2020, 12, 31⟩ 1
+def exI2 : Cell := exInc ⟨2021, 6, 30⟩ 2
+
+/-- **coalesce_ignores_prev** (witness): two valid incremental cells with equal metadata, period and
+evaluation date but different `prev_evaluation_date` are TWO coordinates for `join` (left operand
+incremental ⇒ `prev` is in the key: a full join returns two unmatched pairs) but ONE coordinate for
+`coalesce` (`coalKey` = `(metadata, period, evaluation_date)`, as in merge.py): the first triangle's
+cell wins and the other increment is dropped — also inside a single triangle
+(`coalesce([Triangle([c1, c2])])` has one cell). -/
+theorem coalesce_ignores_prev :
+    exI1.datesOk = true ∧ exI2.datesOk = true ∧
+    joinKey true exI1 ≠ joinKey true exI2 ∧ coalKey exI1 = coalKey exI2 ∧
+    (coalesce [[exI1], [exI2]]).toOption = some [exI1] ∧
+    (coalesce [[exI2], [exI1]]).toOption = some [exI2] ∧
+    (join (some .full) none [exI1] [exI2]).toOption = some [(some exI1, none), (none, some exI2)] ∧
+    firstsBy coalKey [] [[exI1, exI2]].flatten = [exI1] := by
+  decide +kernel
+
+example : Spec.joinHyp (some ["currency"]) exA exB = false := by decide +kernel
+
+theorem exA_sortedOn_currency :
+    Spec.sortedOn (some ["currency"]) exA = exA.map (·.selectOn ["currency"]) :=
+  List.mergeSort_of_pairwise (by decide +kernel)
+theorem exB_sortedOn_currency :
+    Spec.sortedOn (some ["currency"]) exB = exB.map (·.selectOn ["currency"]) :=
+  List.mergeSort_of_pairwise (by decide +kernel)
+
+example : Spec.cellAtLast false (Spec.sortedOn (some ["currency"]) exA)
+      (joinKey false (exA[0]!.selectOn ["currency"])) = some (exA[1]!.selectOn ["currency"]) := by
+  rw [exA_sortedOn_currency]; decide +kernel
+
+/-! #### add_statics -/
+
+/-- source of `add_statics`: two cells for the period of `exA`'s US slice (the later one wins), none for DE -/
+def exSrc : List Cell :=
+  [ exCell exUS ⟨2021, 12, 31⟩ [("earned_premium", .int 11), ("paid_loss", .int 99)],
+    exCell exUS ⟨2023, 12, 31⟩ [("earned_premium", .int 12), ("reported_loss", .int 4)] ]
+
+/-- the hypothesis of `addStaticsSpec_of_addStatics` is satisfiable -/
+example : Spec.addStaticsHyp exA exSrc = true := by decide +kernel
+
+/-- add_statics on `exA`: the DE cell (no source slice) is unchanged, the US cells take
+`earned_premium` of the LATEST source cell (12, not 11) and nothing else (`paid_loss` 99 and
+`reported_loss` are not requested); count, order, coordinates unchanged -/
+theorem ex_addStatics : addStatics exA exSrc ["earned_premium"] =
+    .ok [ exA[0]!,
+      exCell exUS ⟨2021, 12, 31⟩ [("paid_loss", .int 1), ("earned_premium", .int 12)],
+      exCell exUS ⟨2022, 12, 31⟩ [("paid_loss", .int 2), ("earned_premium", .int 12)] ] := by
+  rw [addStatics_eq_map exA_canonical]
+  have hn : (exSrc.map coalKey).Nodup := by decide +kernel
+  simp only [exA, List.map, addStaticsCell, ← latestSource?_eq_sourceCell? hn]
+  exact congrArg _ (by decide +kernel)
+
+/-- … and the Spec predicate holds of it through the bridge theorem -/
+example : Spec.addStaticsSpec exA exSrc ["earned_premium"]
+    [ exA[0]!,
+      exCell exUS ⟨2021, 12, 31⟩ [("paid_loss", .int 1), ("earned_premium", .int 12)],
+      exCell exUS ⟨2022, 12, 31⟩ [("paid_loss", .int 2), ("earned_premium", .int 12)] ] = true :=
+  addStaticsSpec_of_addStatics exA_canonical (by decide +kernel)
+    (by unfold Dict.WF; decide +kernel) ex_addStatics
+
+/-- incremental operands: `prev_evaluation_date` is part of the key — of the two left increments only
+the one with the right cell's `prev` is matched -/
+example : isIncremental [exI1, exI2] = true ∧
+    Spec.joinHyp none [exI1, exI2] [exInc ⟨2021, 6, 30⟩ 5] = true ∧
+    (join (some .inner) none [exI1, exI2] [exInc ⟨2021, 6, 30⟩ 5]).toOption =
+      some [(some exI2, some (exInc ⟨2021, 6, 30⟩ 5))] ∧
+    (join (some .leftAnti) none [exI1, exI2] [exInc ⟨2021, 6, 30⟩ 5]).toOption =
+      some [(some exI1, none)] := by decide +kernel
+
 /-! ### 10. the regrouping loops of `add_statics` / `period_merge` (literal model = direct model) -/
-
-theorem cmp_frame {f : Cell → Cell} (hf : ∀ c, f c = { c with values := (f c).values }) (a b : Cell) :
-    Cell.cmp (f a) (f b) = Cell.cmp a b := by rw [hf a, hf b]; rfl
-
-/-- cells that tie under `Cell.__lt__` are identical when coordinates are distinct -/
-theorem ties_identical_map {f : Cell → Cell} (hf : ∀ c, f c = { c with values := (f c).values })
-    {t : List Cell} (hc : ∀ c ∈ t, c.md.Canon) (hn : (t.map Cell.coord).Nodup) :
-    ∀ a b, a ∈ t.map f → b ∈ t.map f → Cell.cmp a b = .eq → a = b := by
-  intro a b ha hb hab
-  obtain ⟨a0, ha0, rfl⟩ := List.mem_map.mp ha
-  obtain ⟨b0, hb0, rfl⟩ := List.mem_map.mp hb
-  rw [cmp_frame hf] at hab
-  have := (Cell.cmp_eq_eq (hc a0 ha0) (hc b0 hb0)).mp hab
-  rw [inj_of_nodup_map hn ha0 hb0 this]
-
-theorem addStatics_block {src : List Cell} (st : List String)
-    (hs : src.Pairwise (fun a b => Cell.le a b)) {blk : List Cell} {m : Metadata}
-    (hblk : ∀ c ∈ blk, c.md = m) :
-    addStaticsBlockLit (Triangle.slices src) st (m, blk) = blk.map (addStaticsCell src st) := by
-  unfold addStaticsBlockLit
-  simp only []
-  rw [slices_eq, find?_map_key]
-  by_cases hm : m ∈ firstKeys (fun c : Cell => c.md) src
-  · rw [if_pos hm]
-    simp only []
-    rw [slice_sorted hs]
-    unfold addStaticsSliceLit
-    apply List.map_congr_left
-    intro c hc
-    have hcm := hblk c hc
-    subst hcm
-    rw [sourceIndexedGet_eq]
-    rfl
-  · rw [if_neg hm]
-    simp only []
-    conv => lhs; rw [← List.map_id blk]
-    apply List.map_congr_left
-    intro c hc
-    have hnone : sourceCell? src c = none := by
-      unfold sourceCell?
-      have : src.filter (fun s => s.md == c.md && s.ps == c.ps && s.pe == c.pe) = [] := by
-        rw [List.filter_eq_nil_iff]
-        intro s hsm hcond
-        simp only [Bool.and_eq_true, beq_iff_eq] at hcond
-        exact hm ((mem_firstKeys _ src m).mpr ⟨s, hsm, hcond.1.1.trans (hblk c hc)⟩)
-      rw [this]; simp [lastBy?]
-    unfold addStaticsCell; rw [hnone]; rfl
 
 /-- **addStatics_regrouping**: the literal loop of `add_statics` (per slice of the triangle, source
 slice looked up by metadata, source rows grouped by period, concatenation, `Triangle(...)`) returns
@@ -1063,79 +1105,6 @@ theorem addStaticsLit_eq {t src : List Cell} {st : List String} (hc : ∀ c ∈ 
   · rw [← List.map_flatMap]
     exact (flatMap_filter_perm (fun c : Cell => c.md) _ t (firstKeys_nodup _ t)
       (fun a ha => (mem_firstKeys _ t _).mpr ⟨a, ha, rfl⟩)).map _
-
-theorem periodMergeCell_of_le {b : List Cell} {suffix : Option String} {c : Cell}
-    (h : (b.filter (samePeriodKey c)).length ≤ 1) :
-    periodMergeCell b suffix c = .ok (pmCell b suffix c) := by
-  unfold periodMergeCell pmCell
-  match hf : b.filter (samePeriodKey c), h with
-  | [], _ => rfl
-  | [r], _ => rfl
-  | _ :: _ :: _, h => simp at h
-
-theorem periodMergeCell_of_gt {b : List Cell} {suffix : Option String} {c : Cell}
-    (h : ¬ (b.filter (samePeriodKey c)).length ≤ 1) :
-    periodMergeCell b suffix c = .error .valueError := by
-  unfold periodMergeCell
-  match hf : b.filter (samePeriodKey c), h with
-  | [], h => simp at h
-  | [r], h => simp at h
-  | _ :: _ :: _, _ => rfl
-
-theorem periodMergeCell_error {b : List Cell} {suffix : Option String} {c : Cell} {e : Err}
-    (h : periodMergeCell b suffix c = .error e) : e = .valueError := by
-  unfold periodMergeCell at h
-  split at h <;> cases h
-  rfl
-
-/-- one group of the literal loop = the cell-wise map on the group -/
-theorem periodMergeGroupLit_spec (b : List Cell) (suffix : Option String)
-    (k : Date × Date × Metadata) (row : List Cell) (hrow : ∀ c ∈ row, pmIdx c = k) :
-    periodMergeGroupLit (groupBy pmIdx b) suffix (k, row) =
-      if (b.filter (fun r => pmIdx r == k)).length ≤ 1 then .ok (row.map (pmCell b suffix))
-      else .error .valueError := by
-  unfold periodMergeGroupLit
-  simp only []
-  rw [groupGet_groupBy]
-  have hcell : ∀ c ∈ row, b.filter (samePeriodKey c) = b.filter (fun r => pmIdx r == k) := by
-    intro c hc; rw [filter_samePeriodKey, hrow c hc]
-  match hf : b.filter (fun r => pmIdx r == k) with
-  | [] =>
-    simp only [List.length_nil, Nat.zero_le, if_true]
-    congr 1
-    conv => lhs; rw [← List.map_id row]
-    apply List.map_congr_left
-    intro c hc
-    unfold pmCell; rw [hcell c hc, hf]; rfl
-  | [r] =>
-    simp only [List.length_singleton, Nat.le_refl, if_true]
-    congr 1
-    apply List.map_congr_left
-    intro c hc
-    unfold pmCell; rw [hcell c hc, hf]
-  | _ :: _ :: _ => simp
-
-
-theorem periodMergeLit_unfold (a b : List Cell) (suffix : Option String) :
-    periodMergeLit a b suffix =
-      if kindMismatch a b then .error .valueError
-      else Except.bind ((groupBy pmIdx a).mapM (periodMergeGroupLit (groupBy pmIdx b) suffix))
-        (fun out => Triangle.ofCells out.flatten) := by
-  unfold periodMergeLit
-  by_cases h : kindMismatch a b = true
-  · simp [h, bind, Except.bind, throw, throwThe, MonadExceptOf.throw]
-  · simp only [h, bind, Except.bind]
-    rfl
-
-theorem periodMerge_unfold (a b : List Cell) (suffix : Option String) :
-    periodMerge a b suffix =
-      if kindMismatch a b then .error .valueError
-      else Except.bind (a.mapM (periodMergeCell b suffix)) Triangle.ofCells := by
-  unfold periodMerge
-  by_cases h : kindMismatch a b = true
-  · simp [h, bind, Except.bind, throw, throwThe, MonadExceptOf.throw]
-  · simp only [h, bind, Except.bind]
-    rfl
 
 /-- **periodMerge regrouping**: the literal loop of `period_merge` (two `defaultdict(list)` keyed by
 (period, metadata), left groups visited in insertion order, concatenation, `Triangle(...)`) returns
